@@ -46,6 +46,8 @@ ALWAYS_SEARCH = True
 RULE = ('univariate: 8 families + the selecting wrapper (short candidate lists) x constructor options (KDE bw_method '
         'None/scalar/"silverman"/"scott", weights, sample_size; TruncatedGaussian bounds) x data kinds (normal, '
         'lognormal, uniform, bounded, heavy-tailed, tiny n, scale 1e6 / 1e-6, two-valued, constants 0, negative, '
+        'tiny RELATIVE spread: epoch seconds within one hour, 1 + U(0,1e-7), nanometre lengths, 1e12 + N(0,1), values 1..1000 '
+        'ulps apart — for the KDE, wrappers selecting the KDE, KDE columns of a Gaussian copula and every other family; '
         '1e10, 1e-12, 1/3); bivariate: Clayton / Frank / Gumbel / Independence fitted on comonotone..independent '
         'pairs incl. tau = 1 (Clayton theta = inf), tau < 0 (Frank), hand-set edge thetas, unfitted; Gaussian '
         'multivariate: 2-5 columns, str / int / mixed labels, per-column distributions incl. wrapper, KDE and '
@@ -1245,7 +1247,9 @@ def search_univariate(ctx, deep, found):
             for vname, robj in uni_variants(ctx, m, d, tmp, 5 if deep else 3).items():
                 checked += 1
                 inp = {'class': name, 'options': {k: (v.tolist() if isinstance(v, np.ndarray) else v) for k, v in opts.items()},
-                       'data': data.tolist() if len(data) <= 40 else {'kind': kind, 'n': len(data), 'seed_path': [str(k) for k in key]},
+                       'data': data.tolist() if len(data) <= 40 else {'kind': kind, 'n': len(data), 'seed_path': [str(k) for k in key],
+                                                                        'head': data[:6].tolist(), 'min': float(np.min(data)),
+                                                                        'max': float(np.max(data))},
                        'variant': vname}
                 if robj[0] == 'err':
                     e, cls = _uni_class_key(m, vname, 'raises')
